@@ -99,7 +99,7 @@ def gen(rng, tier):
                 n += 1
                 yield {"family": "max_requests.successive-workers", "kind": "max_requests", "backend": be, "max_requests": mr, "jitter": jitter, "tag": n,
                        "rep": 0, "how": "h1", "workers": 3}
-            for how in ("h1_abandon", "h1_concurrent"):
+            for how in ("h1_abandon", "h1_concurrent", "h1_ws", "h1_ws_refused"):
                 for mr, jitter in ((2, 0), (1, 1)):
                     n += 1
                     yield {"family": "max_requests." + how, "kind": "max_requests", "backend": be, "max_requests": mr, "jitter": jitter, "tag": n,
@@ -391,11 +391,11 @@ def _max_requests(case, tally):
 
 
 def _max_requests_one(case, tally, config=None, label=""):
-    from ..world.realnet import ServeHarness, recv_all
+    from ..world.realnet import ServeHarness, recv_all, recv_until
 
     findings = []
     be = case["backend"]
-    apps = {"lifespan": [["recv"], ["send", {"type": "lifespan.startup.complete"}], ["recv"], ["send", {"type": "lifespan.shutdown.complete"}]],
+    apps = {"websocket": [["recv"], ["send", {"type": "websocket.accept"}], ["recv_until_disconnect"]], "lifespan": [["recv"], ["send", {"type": "lifespan.startup.complete"}], ["recv"], ["send", {"type": "lifespan.shutdown.complete"}]],
             "default": [["recv_until_end"], ["respond", 200, [(b"content-length", b"2")], b"ok"]]}
     cfg = {"max_requests": case["max_requests"], "max_requests_jitter": case["jitter"], "graceful_timeout": 0.5, "shutdown_timeout": 0.5, "keep_alive_timeout": 5.0}
     how = case.get("how")
@@ -431,6 +431,13 @@ def _max_requests_one(case, tally, config=None, label=""):
                         s = None
                         if i + 1 >= upper:
                             break
+                elif how in ("h1_ws", "h1_ws_refused"):
+                    # every request of this run is a WebSocket handshake (accepted, or refused for its version): a request like any other
+                    s.sendall(b"GET /t%d HTTP/1.1\r\nHost: h\r\nConnection: Upgrade\r\nUpgrade: websocket\r\nSec-WebSocket-Key: dGhlIHNhbXBsZSBub25jZQ==\r\n"
+                              b"Sec-WebSocket-Version: %s\r\n\r\n" % (i, b"13" if how == "h1_ws" else b"12"))
+                    d = recv_until(s, timeout=0.6)
+                    if d.startswith(b"HTTP/1.1 101") or d.startswith(b"HTTP/1.1 4"):
+                        served += 1
                 elif case.get("how") == "h2c":
                     # every request of this run reaches the server as an h2c upgrade
                     s.sendall(b"GET /t%d HTTP/1.1\r\nHost: h\r\nConnection: Upgrade, HTTP2-Settings\r\nUpgrade: h2c\r\nHTTP2-Settings: \r\n\r\n" % i)
@@ -456,7 +463,9 @@ def _max_requests_one(case, tally, config=None, label=""):
     for e in h.trace.events:
         tally.events[e[2] + "." + e[3]] += 1
     tally.clause("max-requests")
-    started = sum(1 for e in h.trace.events if e[2] == "app" and e[3] == "start" and e[4]["scope"].get("type") == "http")
+    started = sum(1 for e in h.trace.events if e[2] == "app" and e[3] == "start" and e[4]["scope"].get("type") in ("http", "websocket"))
+    if how == "h1_ws_refused":
+        started = served  # (refused before an application is started: the answers the client got are the requests the worker took on)
     lo, hi = case["max_requests"], case["max_requests"] + case["jitter"] + 1
     if not returned:
         findings.append({"clause": "max-requests", "sig": "C18.max-requests/never-recycled/%s" % be, "backend": be,
